@@ -23,7 +23,28 @@ import (
 
 func init() { families["ropure"] = runRoPure }
 
-func dig(b []byte) string { h := sha256.Sum256(b); return hex.EncodeToString(h[:8]) }
+func dig(b []byte) string {
+	h := sha256.Sum256(b)
+	if roKeeping && len(roKept) < 64 {
+		// what a read-only operation returned belongs to the caller: it is looked at again after the later operations
+		roKept = append(roKept, keptOut{b, append([]byte{}, b...)})
+	}
+	return hex.EncodeToString(h[:8])
+}
+
+type keptOut struct{ out, copy []byte }
+
+var roKept []keptOut
+var roKeeping bool
+
+func roRetained() string {
+	for _, k := range roKept {
+		if !bytes.Equal(k.out, k.copy) {
+			return "changed"
+		}
+	}
+	return "same"
+}
 
 type roObject struct {
 	ops map[string]func() string
@@ -205,6 +226,7 @@ func runRoPure(sc M) {
 		return bl
 	}
 	baseline := mkBase(obj)
+	baseline["Retained"] = "same"
 	if kind == "image" || kind == "db" {
 		other := mkBase(roObjectOf(kind, variant))
 		for _, name := range names {
@@ -220,6 +242,8 @@ func runRoPure(sc M) {
 	}
 	callStart(id, "program", M{"mode": str(sc, "mode")})
 	if str(sc, "mode") == "seq" {
+		roKept, roKeeping = nil, true
+		defer func() { roKeeping, roKept = false, nil }()
 		for i, name := range ops {
 			var r string
 			o, _ := guard(func() error { r = obj.ops[name](); return nil })
@@ -231,6 +255,8 @@ func runRoPure(sc M) {
 			o, _ := guard(func() error { r = obj.ops[name](); return nil })
 			emit(M{"sc": id, "op": "end", "g": 0, "gseq": len(ops) + j + 1, "call": name, "res": r, "outcome": o.Kind})
 		}
+		// byte slices handed out by the earlier calls are still what they were
+		emit(M{"sc": id, "op": "end", "g": 0, "gseq": len(ops) + len(names) + 1, "call": "Retained", "res": roRetained(), "outcome": "value"})
 		emit(M{"sc": id, "op": "summary", "mismatches": 0, "races": 0, "reps": 1})
 		return
 	}
